@@ -67,6 +67,8 @@ Str(x, y, X) ==
 \* identifier: exact spelling, other letter case, back-ticked (this engine has
 \* no back-ticked identifiers: a parse error, fresh and cached alike)
 Id(x, X) == <<Same3(x), Same3(X), Bad("`" \o x \o "`", x, "`" \o x \o "`")>>
+\* a name whose letter case matters and that no ':' '.' '$' announces: variable, AS alias, map key
+Nm(x, X) == <<Same3(x), Same3(X)>>
 
 \* base queries over the fixed graph of the harness.  tight[i] = TRUE: no blank
 \* is needed between token i and token i+1; gaps = the gaps whose separator the
@@ -79,7 +81,7 @@ Base ==
                   Kw("RETURN", "return", "Return"), Sym("n."), Id("age", "Age"), Kw("AS", "as", "aS"), Sym("x") >>,
       tight |-> <<TRUE, TRUE, TRUE, TRUE, TRUE, FALSE, FALSE, TRUE, TRUE, FALSE, FALSE, TRUE, FALSE, FALSE>>,
       gaps |-> {1, 6, 9, 10, 12}],
-     [toks |-> << Kw("RETURN", "return", "ReTurn"), Sym("1"), Sym("+"), Sym("1"), Kw("AS", "as", "As"), Sym("x") >>,
+     [toks |-> << Kw("RETURN", "return", "ReTurn"), Sym("1"), Sym("+"), Sym("1"), Kw("AS", "as", "As"), Nm("x", "X") >>,
       tight |-> <<FALSE, TRUE, TRUE, FALSE, FALSE>>, gaps |-> {2, 3, 4, 6}],
      [toks |-> << Kw("MATCH", "match", "Match"), Sym("(n:City)"), Kw("WHERE", "where", "wHERE"), Sym("n.name"),
                   Kw("CONTAINS", "contains", "Contains"), Str("a", "b", "A"), Kw("RETURN", "return", "Return"),
@@ -90,7 +92,12 @@ Base ==
      [toks |-> << Kw("RETURN", "return", "Return"),
                   << Same3("'a\\\\'"), Same3("'a\\''"), Same3("'a'") >>,
                   Kw("AS", "as", "As"), Sym("y"), Sym(","), Str("b", "c", "B"), Kw("AS", "as", "As"), Sym("x") >>,
-      tight |-> <<FALSE, FALSE, FALSE, TRUE, TRUE, FALSE, FALSE>>, gaps |-> {2, 5, 6, 8}] >>
+      tight |-> <<FALSE, FALSE, FALSE, TRUE, TRUE, FALSE, FALSE>>, gaps |-> {2, 5, 6, 8}],
+     \* names that are case-sensitive although they look like keywords to a key function that folds letter case:
+     \* a map key, a variable (A is unbound), a result column
+     [toks |-> << Kw("MATCH", "match", "Match"), Sym("(a:Person {"), Nm("name", "Name"), Sym(": 'Bob'})"),
+                  Kw("RETURN", "return", "Return"), Nm("a", "A"), Sym(".age"), Kw("AS", "as", "As"), Nm("x", "X") >>,
+      tight |-> <<TRUE, TRUE, TRUE, FALSE, FALSE, TRUE, FALSE, FALSE>>, gaps |-> {1, 4, 5, 9}] >>
 
 NTok(b) == Len(Base[b].toks)
 
